@@ -7,8 +7,11 @@
 
   What is NOT claimed as proved (explored by the end-to-end search of tools/props/c06.py only):
   convergence of the iterated linearisation from perturbed / omitted approximate coordinates,
-  completeness and scheduling of the Acord2 strategies (round robin over shared point state),
-  rounding.  The fixed-point theorems are stated on C05's generated linearisation
+  completeness of the Acord2 strategies and the strategies AcordPolar::execute, AcordTraverse,
+  AcordIntersection, AcordWeakChecks and Acord2::get_medians (xy) as wholes, rounding.
+  Round 3: single steps of AcordAzimuth, AcordHdiff, AcordVector, AcordZderived + get_medians_z are
+  modelled (Gama/Model/Acord*.lean) and proved sound and monotone below, for every schedule that
+  interleaves them (the invariants `SoundXY`, `SoundZ`, `…AlgOK` are preserved by each step).  The fixed-point theorems are stated on C05's generated linearisation
   (Gama/Gen/Linearization.lean, regenerated from local_linearization.cpp on every run).
 -/
 import Gama.Lemmas.C06Cogo
@@ -16,8 +19,10 @@ import Gama.Lemmas.C06GN
 import Gama.Lemmas.C06Fix
 import Gama.Lemmas.C06Circle
 import Gama.Lemmas.C06Sort
+import Gama.Lemmas.C06Acord
 namespace Gama.Props.C06
-open Gama Gama.Cogo Gama.Median Gama.GN Gama.C06R Gama.C06L
+variable {ι : Type} [DecidableEq ι]
+open Gama Gama.Cogo Gama.Median Gama.GN Gama.C06R Gama.C06L Gama.Acord Gama.C06A
 
 /-! ## intersection primitives: exact data derived from a true point X are solved by X -/
 
@@ -283,5 +288,174 @@ theorem C06_more_obs_monotone_partial {m n : Type} [Fintype m] [Fintype n] (A : 
     (hA : ∀ x, A.mulVec x = 0 → x = 0) :
     ∀ x, (Matrix.of (fun (i : m ⊕ Unit) => Sum.elim A (fun _ => a) i)).mulVec x = 0 → x = 0 :=
   more_obs_injective A a hA
+
+/-! ## single steps of the Acord2 strategies (round 3)
+
+Vocabulary (Gama/Lemmas/C06Acord.lean): `Truth` = the true coordinates; `SoundXY T pd` / `SoundZ T pd` = every
+coordinate group the point list marks as defined holds the true values; `KeepXY`, `KeepZ` = a defined group keeps
+its flag and its values; `SameXY`, `SameZ` = the group is not touched at all; `Sub l l'` = the `missing` set did
+not grow.  Axes orientation and angle sense enter only through `xN = PD.xNorthAngle()`: the statements hold for
+every real `xN`, hence for all 8 × 2 settings. -/
+
+/-- the azimuth observation function of the linearisation (`value + xNorthAngle() = bearing mod 2π`, the
+    hypothesis of `C06_fixed_point_rhs_azimuth`) gives what the strategy uses, and so does the reverse
+    observation turned round by `prepare` (`+π`, optionally `−2π`) -/
+theorem C06_acord_azimuth_obs (T : Truth ι) (xN : ℝ) (f t : ι) (v : ℝ) (h : IsAzimuth T xN f t v) :
+    AzDir T xN f t v ∧ AzDir T xN t f (v + Real.pi) ∧ AzDir T xN t f (v + Real.pi - 2 * Real.pi) :=
+  ⟨azDir_of_isAzimuth T xN f t v h, azDir_reverse T xN t f v (azDir_of_isAzimuth T xN f t v h)⟩
+
+example : IsAzimuth (ι := ℕ) ⟨fun i => if i = 1 then 100 else 0, fun _ => 0, fun _ => 0⟩ 0 0 1 0 :=
+  ⟨0, by simp [Lin.brg_east]⟩
+
+/-- AcordAzimuth::execute, first branch (the end point with the smaller id is known): the point written is
+    the true one -/
+theorem C06_acord_azimuth_sound_fwd (T : Truth ι) (xN : ℝ) (st : St ι ℝ) (e : AzEntry ι ℝ)
+    (hs : SoundXY T st.pd) (ha : (st.pd e.a).bxy = true) (hb : (st.pd e.b).bxy = false)
+    (hd0 : e.distance ≠ 0) (hok : AzOK T xN e) :
+    ((azStep xN st e).pd e.b).bxy = true ∧ ((azStep xN st e).pd e.b).x = T.x e.b ∧
+    ((azStep xN st e).pd e.b).y = T.y e.b := by
+  rcases azStep_cases xN st e with h | ⟨_, _, _, h⟩ | ⟨ha', _, _, _⟩
+  · exfalso
+    have : azStep xN st e = azFwd xN st e := by simp [azStep, azFwd, ha, hb, hd0]
+    have h2 := (azFwd_sound T xN st e hs ha hd0 hok).1
+    rw [← this, h, hb] at h2; exact absurd h2 (by simp)
+  · rw [h]; exact azFwd_sound T xN st e hs ha hd0 hok
+  · rw [ha] at ha'; exact absurd ha' (by simp)
+
+/-- … second branch (the end point with the larger id is known; `value + π`) -/
+theorem C06_acord_azimuth_sound_rev (T : Truth ι) (xN : ℝ) (st : St ι ℝ) (e : AzEntry ι ℝ)
+    (hs : SoundXY T st.pd) (ha : (st.pd e.a).bxy = false) (hb : (st.pd e.b).bxy = true)
+    (hd0 : e.distance ≠ 0) (hok : AzOK T xN e) :
+    ((azStep xN st e).pd e.a).bxy = true ∧ ((azStep xN st e).pd e.a).x = T.x e.a ∧
+    ((azStep xN st e).pd e.a).y = T.y e.a := by
+  have : azStep xN st e = azRev xN st e := by simp [azStep, azRev, ha, hb, hd0]
+  rw [this]; exact azRev_sound T xN st e hs hb hd0 hok
+
+example : AzOK (ι := ℕ) ⟨fun i => if i = 1 then 5 else 0, fun _ => 0, fun _ => 0⟩ 0 ⟨0, 1, 0, 5, []⟩ := by
+  intro _
+  have h5 : Real.sqrt (((5:ℝ) - 0) * (5 - 0) + (0 - 0) * (0 - 0)) = 5 := by
+    rw [show ((5:ℝ) - 0) * (5 - 0) + (0 - 0) * (0 - 0) = 5 ^ 2 by norm_num]; exact Real.sqrt_sq (by norm_num)
+  refine ⟨?_, ?_, ?_⟩ <;> simp [AzDir, hd, h5]
+
+/-- AcordAzimuth::execute as a whole (prepare on first use, the loop over the map in key order with the point
+    list updated on the way, removal, any number of repetitions): if, per pair of points, the azimuth values as
+    `prepare` turns them round are one value pointing from the smaller at the larger id and the distances are the
+    true ones, every xy the point list holds afterwards is true, and the stored entries stay consistent.
+    (`Tri lt`: `PointID::operator<` identifies keys — a strict total order, C07.) -/
+theorem C06_acord_azimuth_sound {lt : ι → ι → Bool} (htri : Tri lt) (T : Truth ι) (xN : ℝ) (od : List (Cluster ι ℝ))
+    (alg : AzAlg ι ℝ) (st : St ι ℝ) (az0 : ι → ι → ℝ) (haz : ∀ a b, AzDir T xN a b (az0 a b))
+    (hobsA : ∀ f t v, Obs.azimuth f t v ∈ spObs od →
+      (azNormalize lt f t v).2.2 = az0 (azNormalize lt f t v).1 (azNormalize lt f t v).2.1)
+    (hobsD : ∀ f t v, Obs.distance f t v ∈ spObs od → v = hd T f t)
+    (halg : AzAlgOK T xN alg) (hs : SoundXY T st.pd) :
+    SoundXY T (azExecute lt xN od alg st).2.pd ∧ AzAlgOK T xN (azExecute lt xN od alg st).1 :=
+  azExecute_sound htri T xN od alg st az0 haz hobsA hobsD halg hs
+
+example : Tri (fun a b : ℕ => decide (a < b)) := by
+  intro a b h1 h2; simp at h1 h2; omega
+
+/-- FINDING (round 3, replayed on the C++: corpus/C06/pending/acord-azimuth-seam.txt): the hypothesis "one value per
+    pair" of `C06_acord_azimuth_sound` cannot be replaced by "every azimuth is exact".  A forward azimuth 0 and
+    the exact reverse azimuth π of the same pair are stored as 0 and 2π (`if (val > 2*M_PI)` is strict), their
+    median is π: the new point is put on the opposite side of the known one. -/
+theorem C06_acord_azimuth_seam_defect (lt : ι → ι → Bool) (a b : ι) (h : lt a b = true) :
+    azNormalize lt b a (Real.pi : ℝ) = (a, b, 2 * Real.pi) ∧ median2 ([0, 2 * Real.pi] : List ℝ) = Real.pi :=
+  ⟨az_seam_normalize lt a b h, az_seam_median⟩
+
+/-- AcordHdiff::execute (prepare on first use, refresh of the local copy, the chaining loop with any fuel that
+    lets it finish, copy-back): exact height differences and a sound point list give a sound point list; xy is
+    not touched, no height flag is cleared, `missing_z_` only shrinks, and the algorithm's own state stays sound
+    (so the statement applies again to the next call). -/
+theorem C06_acord_hdiff_sound (T : Truth ι) (fuel : Nat) (od : List (Cluster ι ℝ)) (alg alg' : HdAlg ι ℝ)
+    (st st' : St ι ℝ) (hobs : ∀ h ∈ hdAll od, HdOK T h) (halg : HdAlgOK T alg) (hs : SoundZ T st.pd)
+    (hex : hdExecute fuel od alg st = some (alg', st')) :
+    SoundZ T st'.pd ∧ HdAlgOK T alg' ∧ SameXY st.pd st'.pd ∧
+    (∀ j, (st.pd j).bz = true → (st'.pd j).bz = true) ∧
+    Sub st.missZ st'.missZ ∧ st'.missXY = st.missXY ∧ st'.candZ = st.candZ :=
+  hdExecute_props T fuel od alg alg' st st' hobs halg hs hex
+
+/-- both branches of the chaining step: `to = from + hd` and `from = to − hd` -/
+theorem C06_acord_hdiff_step_sound (T : Truth ι) (ls : PD ι ℝ × Bool) (h : Hd ι ℝ) (hs : SoundZ T ls.1)
+    (hok : HdOK T h) : SoundZ T (hdPassStep ls h).1 :=
+  hdPassStep_sound T ls h hs hok
+
+example : HdOK (ι := ℕ) ⟨fun _ => 0, fun _ => 0, fun i => 3 * i⟩ ⟨0, 1, 3⟩ := by simp [HdOK]
+
+/-- AcordVector::execute: exact vectors and a sound point list give a sound point list (xy and z); no flag is
+    cleared, the `missing` sets only shrink, the algorithm's own state stays sound. -/
+theorem C06_acord_vector_sound (T : Truth ι) (fuel : Nat) (od : List (Cluster ι ℝ)) (alg alg' : VecAlg ι ℝ)
+    (st st' : St ι ℝ) (hobs : ∀ h ∈ vecAll od ⟨0, 0, 0, 0⟩ [], VecOK T h) (halg : VecAlgOK T alg)
+    (h1 : SoundXY T st.pd) (h2 : SoundZ T st.pd) (hex : vecExecute fuel od alg st = some (alg', st')) :
+    VecCopyProps T st st' ∧ VecAlgOK T alg' :=
+  vecExecute_props T fuel od alg alg' st st' hobs halg h1 h2 hex
+
+/-- both branches of the chaining step: `to = from + (dx,dy,dz)` and `from = to − (dx,dy,dz)` -/
+theorem C06_acord_vector_step_sound (T : Truth ι) (ls : PD ι ℝ × Bool) (h : Vec ι ℝ) (hxy : SoundXY T ls.1)
+    (hz : SoundZ T ls.1) (hok : VecOK T h) : SoundXY T (vecPassStep ls h).1 ∧ SoundZ T (vecPassStep ls h).1 :=
+  vecPassStep_sound T ls h hxy hz hok
+
+example : VecOK (ι := ℕ) ⟨fun i => i, fun i => 2 * i, fun i => 3 * i⟩ ⟨0, 1, 1, 2, 3⟩ := by simp [VecOK]
+
+/-- the zenith angle of C05's linearisation (`arccos (dz / slope)`) is a first-face zenith reading in the
+    sense used below whenever the sight is not vertical -/
+theorem C06_acord_zenith_obs (h v : ℝ) (hh : 0 < h) :
+    IsZenith h v (Real.sqrt (h * h + v * v)) (Real.arccos (v / Real.sqrt (h * h + v * v))) :=
+  isZenith_arccos h v hh
+
+/-- AcordZderived, branch A (station height from targets with heights): every `continue`-free outcome is the
+    true height of the station — for horizontal distances, slope distances and coordinate distances, with the
+    instrument / target heights of the zenith angle -/
+theorem C06_acord_zderived_station_sound (T : Truth ι) (pd : PD ι ℝ) (station : ι) (obs : List (Obs ι ℝ))
+    (hxy : SoundXY T pd) (hzs : SoundZ T pd) (hok : ZdOK T station obs) (z : ℝ)
+    (h : zdStation pd obs = some z) : z = T.z station :=
+  zdStation_sound T pd station obs hxy hzs hok z h
+
+/-- … branch B (target heights from the station height) -/
+theorem C06_acord_zderived_target_sound (T : Truth ι) (pd : PD ι ℝ) (station : ι) (obs : List (Obs ι ℝ))
+    (hxy : SoundXY T pd) (hok : ZdOK T station obs) :
+    ∀ c ∈ zdTargets pd (T.z station) obs, c.2 = T.z c.1 :=
+  zdTargets_sound T pd station obs hxy hok
+
+example : IsZenith 1 0 1 (Real.pi / 2) := by simp [IsZenith]
+
+/-- AcordZderived::execute followed by Acord2::get_medians_z (one round, all clusters, both branches, the
+    median of any number of candidates): a sound point list stays sound -/
+theorem C06_acord_zderived_sound (T : Truth ι) (od : List (Cluster ι ℝ)) (alg : ZdAlg) (st : St ι ℝ)
+    (h0 : st.candZ = []) (hok : OdZdOK T od) (hxy : SoundXY T st.pd) (hz : SoundZ T st.pd) :
+    SoundZ T (zdRound od alg st).2.pd ∧ SoundXY T (zdRound od alg st).2.pd :=
+  zdRound_sound T od alg st h0 hok hxy hz
+
+/-- FINDING (round 3, replayed on the C++: corpus/C06/pending/acord-zderived-face2.txt): a second-face reading
+    `2π − za` — which the linearisation accepts (`if (value > π) za = 2π − za`, `C06_fixed_point_rhs_z_angle`) —
+    enters AcordZderived unreduced and the height difference is applied with the wrong sign
+    (`stZ − v + dh` instead of `stZ + v + dh`) -/
+theorem C06_acord_zderived_face2_defect (T : Truth ι) (pd : PD ι ℝ) (f t : ι) (stZ fdh tdh za s : ℝ)
+    (hz : IsZenith (hd T f t) (T.z t + tdh - (T.z f + fdh)) s za) (hb : (pd f).bxy = false) :
+    zdTargetHeights pd stZ [(t, hd T f t)] [] ⟨f, t, 2 * Real.pi - za, fdh, tdh⟩ =
+      [(t, stZ - (T.z t + tdh - (T.z f + fdh)) + (fdh - tdh))] :=
+  zd_face2_defect T pd f t stZ fdh tdh za s hz hb
+
+/-- "a step never changes coordinates that were already known and never un-knows a point", for arbitrary
+    (also inconsistent) data: AcordAzimuth::execute keeps every defined xy, does not touch heights; one round of
+    AcordZderived + get_medians_z keeps every defined height, does not touch xy; `missing` sets never grow -/
+theorem C06_acord_step_monotone (lt : ι → ι → Bool) (xN : ℝ) (od : List (Cluster ι ℝ)) (aa : AzAlg ι ℝ) (za : ZdAlg)
+    (st : St ι ℝ) :
+    (KeepXY st.pd (azExecute lt xN od aa st).2.pd ∧ SameZ st.pd (azExecute lt xN od aa st).2.pd ∧
+      Sub st.missXY (azExecute lt xN od aa st).2.missXY ∧ (azExecute lt xN od aa st).2.missZ = st.missZ) ∧
+    (st.candZ = [] →
+      KeepZ st.pd (zdRound od za st).2.pd ∧ SameXY st.pd (zdRound od za st).2.pd ∧
+      Sub st.missZ (zdRound od za st).2.missZ ∧ (zdRound od za st).2.missXY = st.missXY) := by
+  obtain ⟨a, b, c, d, _⟩ := azExecute_mono lt xN od aa st
+  exact ⟨⟨a, b, c, d⟩, fun h0 => zdRound_mono od za st h0⟩
+
+/-- … for AcordHdiff / AcordVector the part that holds for arbitrary data is "no flag is cleared, the other
+    coordinate group of AcordHdiff is untouched, the `missing` sets never grow" (in `C06_acord_hdiff_sound`,
+    `C06_acord_vector_sound`); that *values* of defined coordinates are kept is proved for consistent data only
+    (they are true before and after).  The full statement fails for AcordVector on the real code: a point whose
+    xy is given but whose z is missing is not "known" to the strategy and its xy is overwritten from the
+    vector (replayed: corpus/C06/pending/acord-vector-overwrites-xy.txt) — a local pass keeps every defined height: -/
+theorem C06_acord_step_monotone_hdiff_partial (ls : PD ι ℝ × Bool) (h : Hd ι ℝ) :
+    KeepZ ls.1 (hdPassStep ls h).1 ∧ SameXY ls.1 (hdPassStep ls h).1 :=
+  hdPassStep_mono ls h
 
 end Gama.Props.C06
